@@ -36,7 +36,8 @@ META = {
              " Round 12: header slope 1 with an intercept."
              " Round 13: the jpeg encoding (8-bit, 1 or 3 channels)."
              " Round 14: NaN voxels in a third of the float volumes."
-             " Round 16: sub-check unsupported_volume (1-, 2-, 5-, 6-D files)."),
+             " Round 16: sub-check unsupported_volume (1-, 2-, 5-, 6-D files)."
+             " Round 17: volume-to-precomputed re-run on the existing dataset with an updated volume, compared with a fresh conversion."),
     "trusted_base": ["nibabel (input files)", "vlib/datasets.read_scale"],
     "assumptions": ["RGB inputs and --sharding are outside the all-in-one "
                     "command's options: sharded programs only take part in "
@@ -294,6 +295,46 @@ def check_case(ctx, case, mode="inproc"):
                 ctx.fail("running volume-to-precomputed a second time "
                          "changed the decoded full-resolution scale (%s)"
                          % describe(case))
+            # the step is run again with ANOTHER volume of the same geometry
+            # (an updated image): the dataset must then hold the new voxels,
+            # exactly as a fresh conversion of that volume does
+            volb = np.asfortranarray(vol[::-1, ::-1])
+            if volb.tobytes() != vol.tobytes():
+                pathb = os.path.join(root, "volb.nii")
+                nifti.write_nifti(pathb, volb, np.diag(list(vs) + [1.0]),
+                                  slope, inter)
+                p2c = os.path.join(base, "p2c")
+                rc, err = run_cmd("v2p", [pathb, sp(p2c)] + gen
+                                  + common_opts(case), mode)
+                if rc not in (0, 4):
+                    ctx.fail("generate-info exited with status %d (%s)" % (
+                        rc, err))
+                must("gsi", [os.path.join(p2c, "info_fullres.json"), sp(p2c)]
+                     + info_opts(case), "fresh conversion of the updated "
+                     "volume")
+                must("v2p", [pathb, sp(p2c)] + read_opts(case)
+                     + common_opts(case), "fresh conversion of the updated "
+                     "volume")
+                must("v2p", [pathb, sp(p2)] + read_opts(case)
+                     + common_opts(case), "conversion of an updated volume "
+                     "into the existing dataset")
+                _, lv_new = read_dataset_scale0(ctx, p2)
+                _, lv_ref = read_dataset_scale0(ctx, p2c)
+                if not same_levels(lv_new, lv_ref):
+                    ctx.fail("volume-to-precomputed run on an existing "
+                             "dataset with an updated volume exited with "
+                             "status 0, but the full-resolution scale does "
+                             "not hold the new voxels (%s)" % describe(case))
+                # ... and back to the original volume for the later steps
+                must("v2p", v2p_args, "conversion of the original volume "
+                     "into the dataset again")
+                _, lv_back = read_dataset_scale0(ctx, p2)
+                if not same_levels(lv_back, lv_a):
+                    ctx.fail("after converting the original volume into the "
+                             "dataset again, the full-resolution scale "
+                             "differs from the first conversion (%s)"
+                             % describe(case))
+                ctx.count("updated_volume_reconverted")
         comp_args = [sp(p2)] + ds_opts(case) + common_opts(case)
         must("compute", comp_args, "step-by-step")
         info2, levels2 = read_dataset(ctx, p2, "step-by-step pipeline")
